@@ -3424,7 +3424,7 @@ RCP<const Basic> polygamma(const RCP<const Basic> &n_,
             if (den == 2) {
                 res = sub(mul(im2, log(i2)), EulerGamma);
             } else if (den == 3) {
-                if (num == 1) {
+                if (r == 1) {
                     res = add(neg(div(div(pi, i2), sqrt(i3))),
                               sub(div(mul(im3, log(i3)), i2), EulerGamma));
                 } else {
@@ -3432,7 +3432,7 @@ RCP<const Basic> polygamma(const RCP<const Basic> &n_,
                               sub(div(mul(im3, log(i3)), i2), EulerGamma));
                 }
             } else if (den == 4) {
-                if (num == 1) {
+                if (r == 1) {
                     res = add(div(pi, im2), sub(mul(im3, log(i2)), EulerGamma));
                 } else {
                     res = add(div(pi, i2), sub(mul(im3, log(i2)), EulerGamma));
